@@ -69,6 +69,7 @@ var pureMethods = map[string]bool{
 	"(error).Error": true, "(context.Context).Err": true, "(context.Context).Done": true, "(context.Context).Value": true,
 	"(reflect.Type).Comparable": true, "(reflect.Type).Kind": true, "(reflect.Type).String": true, "(reflect.Type).Elem": true, "(reflect.Type).Name": true,
 	"(fmt.Stringer).String": true,
+	"(github.com/graphql-go/graphql/language/ast.Value).GetKind": true, "(github.com/graphql-go/graphql/language/ast.Node).GetKind": true,
 }
 
 func (vc *FnVC) callWrites(c ssa.CallInstruction) (map[string]bool, bool) {
